@@ -3,5 +3,5 @@ CONSTANTS
   MaxLen = 3
   CloneLen = 3
   StimLen = 2
-INVARIANTS Recurrence GainRule Between ZeroTime Monotone SetLater DetSign CloneSame Independent
+INVARIANTS Recurrence GainRule Between ZeroTime Monotone SetLater DetSign FmtIdle CloneSame Independent
 CHECK_DEADLOCK FALSE
